@@ -2,7 +2,7 @@
    graph  = ((node...) (edge...)), node = (id label type ((key w)...) (wild...)),
             edge = (from to type tupleset (cond...) ((key w)...) (wild...))
    result = (0 graph) | (1 class msg) ; class 0 invalid model, 1 model cycle, 2 tuple cycle, 3 constraint tuple cycle, 5 out of fuel *)
-From Verif Require Import Base.Str Base.Sx Base.Outcome Model.Ast Model.WGraph Model.WWeights Model.PGraph Model.WireModel.
+From Verif Require Import Base.Str Base.Sx Base.Outcome Model.Ast Model.WGraph Model.WWeights Model.PGraph Model.WireModel Spec.GraphWeights.
 
 Definition sx_ntype (t : ntype) : sx := SA (match t with NType => 0 | NTypeRel => 1 | NOperator => 2 | NWildcard => 3 end).
 Definition sx_etype (t : etype) : sx := SA (match t with EDirect => 0 | ERewrite => 1 | ETTU => 2 | EComputed => 3 end).
@@ -49,6 +49,14 @@ Definition dispatch_graph (op : N) (args : list sx) : option sx :=
           Some (sx_list (fun a => sx_list (fun b => sx_obool2 (path_exists g a b)) ls) ls)
       | _, _ => None
       end
+  | 502, [m] =>
+      (* the SPECIFICATION of Spec/GraphWeights.v on the model's graph: (applicable? ((relation-node weights)...)) *)
+      option_map (fun m => match wbuild m with
+                           | Ok g => SL [sx_bool (dag_check g);
+                                         sx_list (fun n => SL [sx_str (n_id n); sx_wmap (spec_weights g (n_id n))])
+                                                 (filter (fun n => match n_type n with NTypeRel => true | _ => false end) (g_nodes g))]
+                           | _ => SL [SA 2; SL []]
+                           end) (un_model m)
   | 500, [m] => option_map (fun m => sx_gresult (wbuild m)) (un_model m)
   | 501, [o; m] =>
       match un_opt (un_listof un_str) o, un_model m with
